@@ -7,7 +7,7 @@
 //! delivery under a script-chosen `ConnectStyle`, monitor/manager reload at script-chosen points.
 //! The engine records facts only (NDJSON); the verdict is TLC's (spec/OnChainTrace.tla).
 //!
-//! usage: onchain [--scripts FILE] [--random N --profile c06|c07 --seed S] --out TRACE
+//! usage: onchain [--scripts FILE] [--random N --profile c06|c07|c07r --seed S] --out TRACE
 
 use bitcoin::hashes::Hash as _;
 use bitcoin::secp256k1::Secp256k1;
@@ -106,6 +106,7 @@ struct Net {
 	queues: HashMap<(usize, usize), VecDeque<Wire>>,
 	log: Vec<Value>,
 	hashes: Vec<[u8; 32]>,
+	claim_ids: Vec<[u8; 32]>,
 	pays: Vec<Pay>,
 	scid: u64,
 	run: u64,
@@ -139,6 +140,8 @@ struct Net {
 	refused: [bool; 2],
 	jump_from: Option<u32>,
 	mined: Vec<MemTx>,
+	fork: u32,
+	hwm: u32,
 }
 
 impl Net {
@@ -152,6 +155,16 @@ impl Net {
 		self.hashes.push(*h);
 		self.hashes.len()
 	}
+	fn claim(&mut self, c: &[u8; 32]) -> usize {
+		if let Some(p) = self.claim_ids.iter().position(|x| x == c) {
+			return p + 1;
+		}
+		self.claim_ids.push(*c);
+		self.claim_ids.len()
+	}
+	fn estimates(&self) -> Vec<u32> {
+		(0..2).map(|i| *self.cfgs[i].fee_estimator.sat_per_kw.lock().unwrap()).collect()
+	}
 	fn txi(&mut self, t: &Txid) -> usize {
 		let n = self.ids.len() + 1;
 		*self.ids.entry(*t).or_insert(n)
@@ -161,6 +174,12 @@ impl Net {
 	}
 	fn height(&self) -> u32 {
 		self.nodes[self.live[0]].best_block_info().1
+	}
+	/// The height against which the finality of a broadcast is judged: the best height, or -- until the
+	/// chain has regained it after a reorganisation of its (empty) tip blocks -- the height it had
+	/// (a node may not have been told yet, or re-announce a transaction made for the old tip).
+	fn judged_height(&self) -> u32 {
+		self.height().max(self.hwm)
 	}
 	fn idx_of(&self, pk: &bitcoin::secp256k1::PublicKey) -> usize {
 		self.nodes.iter().position(|n| n.node.get_our_node_id() == *pk).expect("unknown peer")
@@ -474,12 +493,20 @@ impl Net {
 		let h = self.height();
 		let id = self.txi(&txid);
 		if self.conf.contains_key(&txid) || self.mempool.iter().any(|m| m.txid == txid) {
-			self.ev(json!({"ev":"bcast","by":by,"tx":id,"dup":true,"h":h,"kind":kind,"ins":[],"wal":[],"outs":[],"fee":0,"weight":0,"feerate":0,"pfeerate":0,"locktime":0,"valid":true,"final":true,"sweep":false}));
+			// a transaction seen before, announced again: which outputs it (still) goes after
+			let ws = if by < 2 { Some(self.wallet_script(by)) } else { None };
+			let mut ins = Vec::new();
+			let mut wal = Vec::new();
+			for i in tx.input.iter() {
+				wal.push(ws.as_ref().map(|s| self.outs.get(&i.previous_output).map(|o| &o.script_pubkey == s).unwrap_or(false)).unwrap_or(false));
+				ins.push(self.opj(&i.previous_output));
+			}
+			self.ev(json!({"ev":"bcast","by":by,"tx":id,"dup":true,"h":h,"kind":kind,"ins":ins,"wal":wal,"outs":[],"fee":0,"weight":0,"feerate":0,"pfeerate":0,"locktime":0,"valid":true,"final":true,"sweep":false}));
 			return;
 		}
 		self.register_outputs(&tx);
 		let valid = self.verify(&tx);
-		let fin = self.is_final(&tx, h + 1, &HashSet::new());
+		let fin = self.is_final(&tx, self.judged_height() + 1, &HashSet::new());
 		let inval: u64 = tx.input.iter().map(|i| self.outs.get(&i.previous_output).map(|o| o.value.to_sat()).unwrap_or(0)).sum();
 		let outval: u64 = tx.output.iter().map(|o| o.value.to_sat()).sum();
 		let fee = inval as i64 - outval as i64;
@@ -550,12 +577,21 @@ impl Net {
 						self.ev(json!({"ev":"spendable","node":i,"h":h,"outs":ds}));
 					},
 					Event::BumpTransaction(b) => {
-						let (k, n, target) = match &b {
-							BumpTransactionEvent::ChannelClose { package_target_feerate_sat_per_1000_weight, .. } => ("close", 0, *package_target_feerate_sat_per_1000_weight),
-							BumpTransactionEvent::HTLCResolution { htlc_descriptors, target_feerate_sat_per_1000_weight, .. } => ("htlc", htlc_descriptors.len(), *target_feerate_sat_per_1000_weight),
+						// what the monitor asks for: which claim (its public id), the channel outputs the
+						// requested transaction spends, at which feerate
+						let (k, n, target, cid, ops) = match &b {
+							BumpTransactionEvent::ChannelClose { package_target_feerate_sat_per_1000_weight, claim_id, commitment_tx, .. } =>
+								("close", 0, *package_target_feerate_sat_per_1000_weight, claim_id.0,
+								 commitment_tx.input.iter().map(|i| i.previous_output).collect::<Vec<OutPoint>>()),
+							BumpTransactionEvent::HTLCResolution { htlc_descriptors, target_feerate_sat_per_1000_weight, claim_id, .. } =>
+								("htlc", htlc_descriptors.len(), *target_feerate_sat_per_1000_weight, claim_id.0,
+								 htlc_descriptors.iter().map(|d| d.outpoint()).collect::<Vec<OutPoint>>()),
 						};
 						let h = self.height();
-						self.ev(json!({"ev":"bump","node":i,"h":h,"kind":k,"n":n,"target":target}));
+						let c = self.claim(&cid);
+						let opsj: Vec<Value> = ops.iter().map(|o| self.opj(o)).collect();
+						let est = self.estimates()[i];
+						self.ev(json!({"ev":"bump","node":i,"h":h,"kind":k,"n":n,"target":target,"claim":c,"ops":opsj,"est":est}));
 						self.nodes[i].bump_tx_handler.handle_event(&b);
 					},
 					_ => {},
@@ -835,7 +871,8 @@ impl Net {
 				self.commit_logged = true;
 			}
 		}
-		let block = create_dummy_block(prev, h_next, txs.clone());
+		// (blocks mined after a reorganisation differ from the ones they replace)
+		let block = create_dummy_block(prev, h_next + self.fork * 1_000_000, txs.clone());
 		for i in self.live.clone() {
 			connect_block(&self.nodes[i], &block);
 		}
@@ -973,6 +1010,32 @@ impl Net {
 					self.checkpoint(None, true);
 				} else { did = false; }
 			},
+			"reorg" => {
+				// The newest blocks are replaced by other blocks. Only blocks above every transaction
+				// confirmed so far are taken back (whatever is confirmed stays confirmed).
+				let h = self.height();
+				// ... and the chain is not taken back below an HTLC expiry it had reached (a claim that
+				// was final when it was made stays final).
+				let mut top = self.conf.values().cloned().max().unwrap_or(h);
+				if let Some((o, k)) = self.confirmed_commit {
+					for x in self.commits[o][k].ct.nondust_htlcs().iter() {
+						if x.cltv_expiry <= h + 1 { top = top.max(x.cltv_expiry); }
+					}
+				}
+				let d = (op["depth"].as_u64().unwrap_or(1) as u32).min(h.saturating_sub(top));
+				if d == 0 || self.agent.is_some() || self.confirmed_commit.is_none() { did = false; } else {
+					self.flush_idle();
+					for i in self.live.clone() { disconnect_blocks(&self.nodes[i], d); }
+					for i in self.frozen.clone() {
+						for _ in 0..d { self.nodes[i].blocks.lock().unwrap().pop(); }
+					}
+					self.fork += 1;
+					self.hwm = self.hwm.max(h);
+					self.ev(json!({"ev":"rewind","from":h,"h":h - d}));
+					self.checkpoint(None, true);
+					for _ in 0..op["add"].as_u64().unwrap_or(1).max(1) { self.connect(Vec::new()); }
+				}
+			},
 			"style" => {
 				let i = op["node"].as_u64().unwrap_or(0) as usize % 2;
 				*self.nodes[i].connect_style.borrow_mut() = style_of(op["v"].as_u64().unwrap_or(0) as usize);
@@ -1059,6 +1122,13 @@ impl Net {
 		let styles: Vec<String> = (0..2).map(|i| format!("{:?}", *self.nodes[i].connect_style.borrow())).collect();
 		let h0 = self.nodes[0].best_block_info().1;
 		let value = self.outs.get(&self.funding).map(|o| o.value.to_sat()).unwrap_or(0);
+		// what the fee estimators say when the channel goes to chain
+		if let Some(a) = c["est"].as_array() {
+			for (i, v) in a.iter().enumerate().take(2) {
+				if let Some(v) = v.as_u64() { *self.cfgs[i].fee_estimator.sat_per_kw.lock().unwrap() = v as u32; }
+			}
+		}
+		let est = self.estimates();
 		match kind {
 			"revoked" => {
 				let owner = c["owner"].as_u64().unwrap_or(1) as usize % 2;
@@ -1079,7 +1149,7 @@ impl Net {
 				self.agent = Some(copy);
 				self.disconnect();
 				self.ev(json!({"ev":"open","kind":"revoked","chan_type":self.chan_type,"value":value,"live":self.live,"owner":owner,"k":k,"n_revoked":r,
-					"delays":delays,"styles":styles,"h":h0,"anti_reorg":6}));
+					"delays":delays,"styles":styles,"h":h0,"anti_reorg":6,"est":est}));
 				self.nodes[owner].tx_broadcaster.txn_broadcasted.lock().unwrap().clear();
 				self.nodes[owner].tx_broadcaster.txn_types.lock().unwrap().clear();
 				for (q, t) in txs.iter().enumerate() {
@@ -1097,7 +1167,7 @@ impl Net {
 				if prev { self.live = vec![1 - owner]; self.frozen = vec![owner]; } else { self.live = vec![0, 1]; self.frozen = vec![]; }
 				self.disconnect();
 				self.ev(json!({"ev":"open","kind": if prev {"cp_previous"} else {"cp_current"},"chan_type":self.chan_type,"value":value,"live":self.live,"owner":owner,"k":num,"n_revoked":self.revoked[owner],
-					"delays":delays,"styles":styles,"h":h0,"anti_reorg":6}));
+					"delays":delays,"styles":styles,"h":h0,"anti_reorg":6,"est":est}));
 				self.handle_bcast(HARNESS, txs[0].clone(), "Commitment".into());
 			},
 			_ => {
@@ -1107,7 +1177,7 @@ impl Net {
 				self.frozen = vec![];
 				if !deliver_error { self.disconnect(); }
 				self.ev(json!({"ev":"open","kind":"force","chan_type":self.chan_type,"value":value,"live":self.live,"owner":owner,"k":self.holder_num[owner],"n_revoked":self.revoked[owner],
-					"delays":delays,"styles":styles,"h":h0,"anti_reorg":6}));
+					"delays":delays,"styles":styles,"h":h0,"anti_reorg":6,"est":est}));
 				let peer = self.nodes[1 - owner].node.get_our_node_id();
 				if self.nodes[owner].node.force_close_broadcasting_latest_txn(&self.chan_id, &peer, "closing".to_string()).is_err() { return false; }
 				if deliver_error {
@@ -1222,12 +1292,12 @@ fn build_net(run: u64, cfg: &Value) -> Net {
 		n.tx_broadcaster.txn_types.lock().unwrap().clear();
 	}
 	let mut net = Net {
-		nodes, cfgs, chan_id, chan_type, queues: HashMap::new(), log: Vec::new(), hashes: Vec::new(), pays: Vec::new(), scid, run,
+		nodes, cfgs, chan_id, chan_type, queues: HashMap::new(), log: Vec::new(), hashes: Vec::new(), claim_ids: Vec::new(), pays: Vec::new(), scid, run,
 		holder_num: [0, 0], revoked: [0, 0], snaps: [HashMap::new(), HashMap::new()], known: [HashSet::new(), HashSet::new()], mark: None,
 		outs: HashMap::new(), conf: HashMap::new(), spent: HashMap::new(), ids: HashMap::new(), mempool: Vec::new(),
 		funding: OutPoint { txid: ftxid, vout }, live: vec![0, 1], frozen: vec![], agent: None, agent_owner: 0, agent_bc: None,
 		commits: [Vec::new(), Vec::new()], commit_logged: false, confirmed_commit: None, pending: Vec::new(), last_state: String::new(),
-		idle_from: None, executed: 0, skipped: 0, swept: [0, 0], refused: [false, false], jump_from: None, mined: Vec::new(),
+		idle_from: None, executed: 0, skipped: 0, swept: [0, 0], refused: [false, false], jump_from: None, mined: Vec::new(), fork: 0, hwm: 0,
 	};
 	net.drain_msgs();
 	net.deliver(usize::MAX);
@@ -1298,7 +1368,110 @@ fn agent_sel(rng: &mut StdRng) -> Value {
 	}
 }
 
+/// The next value of a fee-estimator trajectory: collapses (by more than the 5x that LDK's bump
+/// logic uses as a cap), spikes, drifts.
+fn next_estimate(rng: &mut StdRng, prev: u32) -> u32 {
+	let r = rng.gen_range(0..100);
+	let v = if r < 50 { prev / rng.gen_range(6..40) }
+		else if r < 75 { prev.saturating_mul(rng.gen_range(2..12)) }
+		else if r < 90 { prev * rng.gen_range(60..140) / 100 }
+		else { prev };
+	v.max(253).min(40_000)
+}
+
+/// Closes of anchor channels (claims that need external fee inputs: the commitment's anchor bump,
+/// zero-fee HTLC transactions) by their holder, with the holder's claims kept out of the blocks for
+/// several bump intervals while the fee estimators move sharply in both directions.
+fn fee_trajectory_script(rng: &mut StdRng) -> Value {
+	let chan_type = ["anchors", "zerofee"][rng.gen_range(0..2)];
+	let closer = rng.gen_range(0..2usize);
+	let (mut history, mut npay) = random_history(rng, false, closer);
+	if npay == 0 || rng.gen_bool(0.3) {
+		// one more HTLC, sent first (the payment indices of the later claim / fail steps move up)
+		for o in history.iter_mut() {
+			if o["op"] == "claim" || o["op"] == "fail" { o["pay"] = json!(o["pay"].as_u64().unwrap_or(0) + 1); }
+		}
+		history.insert(0, json!({"op":"pay","from":rng.gen_range(0..2),"amt":(["big", "small"][rng.gen_range(0..2)])}));
+		npay += 1;
+	}
+	let highs = [1000u32, 2500, 5000, 20000];
+	let mut est = [highs[rng.gen_range(0..4)], highs[rng.gen_range(0..4)]];
+	if rng.gen_bool(0.3) { est[1 - closer] = 253; }
+	let close = json!({"kind":"force","node":closer,"deliver_error":rng.gen_bool(0.15),"est":[est[0], est[1]]});
+	let mut chain: Vec<Value> = Vec::new();
+	let other = 1 - closer;
+	let step = |chain: &mut Vec<Value>, rng: &mut StdRng, est: &mut [u32; 2], who: Value, lens: &[u64]| {
+		let n = if rng.gen_bool(0.7) { closer } else { other };
+		if rng.gen_bool(0.85) {
+			est[n] = next_estimate(rng, est[n]);
+			chain.push(json!({"op":"feerate","node":n,"v":est[n]}));
+		}
+		let r = rng.gen_range(0..100);
+		if r < 8 { chain.push(json!({"op":"reload","node":closer})); }
+		else if r < 16 { chain.push(json!({"op":"rebroadcast","node":closer})); }
+		chain.push(json!({"op":"mine","who":who,"n":lens[rng.gen_range(0..lens.len())]}));
+	};
+	// the commitment transaction (and its anchor bump) is left out of the blocks
+	// (the commitment package is re-bumped at every block)
+	for _ in 0..rng.gen_range(0..5) { step(&mut chain, rng, &mut est, json!([]), &[1, 1, 1, 2, 3]); }
+	chain.push(json!({"op":"mine","who":"all","n":1}));
+	// second stage: the holder's HTLC transactions are left out, the peer's claims may confirm
+	// (HTLC claims are re-bumped every 15 blocks, every 3 and every block as their deadline approaches)
+	for _ in 0..rng.gen_range(0..4) {
+		let r = rng.gen_range(0..100);
+		if r < 30 && npay > 0 { chain.push(json!({"op":"preimage","pay":rng.gen_range(0..npay)})); }
+		else if r < 75 { chain.push(json!({"op":"to_expiry","htlc":rng.gen_range(0..4),"who": if rng.gen_bool(0.5) { json!([other, HARNESS]) } else { json!([]) },"off":rng.gen_range(-16..3)})); }
+		for _ in 0..rng.gen_range(1..5) {
+			let who = if rng.gen_bool(0.4) { json!([other, HARNESS]) } else { json!([]) };
+			step(&mut chain, rng, &mut est, who, &[1, 1, 2, 3, 3, 5, 8, 15, 16]);
+		}
+	}
+	chain.push(json!({"op":"settle"}));
+	json!({"cfg":{"chan_type":chan_type,"value":1_000_000,"push":([100_000_000u64, 400_000_000, 500_000_000][rng.gen_range(0..3)]),
+		"feerate":([253u32, 1000, 2500][rng.gen_range(0..3)]),"style":[rng.gen_range(0..11), rng.gen_range(0..11)]},
+		"history":history,"close":close,"chain":chain,"family":"fee_trajectory"})
+}
+
+/// A preimage that turns up k blocks after the commitment confirmed, the claim made for it left
+/// unmined, the newest block(s) replaced by others, the application asking for the pending claims
+/// again (twice, some blocks apart): is the claim still pursued?  Mostly on a counterparty commitment
+/// that is still young, the other paths of `provide_payment_preimage` (holder commitment, buried
+/// counterparty commitment) less often.
+fn late_preimage_reorg_script(rng: &mut StdRng) -> Value {
+	let types = ["static", "anchors", "zerofee"];
+	let npay = rng.gen_range(1..4usize);
+	let amts = ["big", "big", "small", "edge"];
+	let mut history: Vec<Value> = Vec::new();
+	let mut payer = Vec::new();
+	for _ in 0..npay {
+		let from = rng.gen_range(0..2usize);
+		payer.push(from);
+		history.push(json!({"op":"pay","from":from,"amt":amts[rng.gen_range(0..amts.len())]}));
+	}
+	let pick = rng.gen_range(0..npay);
+	// whose commitment confirms: mostly the payer's (the receiver claims on a counterparty commitment)
+	let owner = if rng.gen_bool(0.8) { payer[pick] } else { 1 - payer[pick] };
+	let close = if rng.gen_bool(0.7) { json!({"kind":"counterparty","owner":owner,"which":"current"}) }
+		else { json!({"kind":"force","node":owner,"deliver_error":false}) };
+	let k = if rng.gen_bool(0.85) { rng.gen_range(0..5u64) } else { rng.gen_range(5..11u64) };
+	let mut chain: Vec<Value> = vec![json!({"op":"mine","who":"all","n":1})];
+	if k > 0 { chain.push(json!({"op":"mine","who":"none","n":k})); }
+	chain.push(json!({"op":"preimage","pay":pick}));
+	if rng.gen_bool(0.3) { chain.push(json!({"op":"mine","who":"none","n":rng.gen_range(1..3)})); }
+	chain.push(json!({"op":"reorg","depth":rng.gen_range(1..=(k + 1).min(3)),"add":rng.gen_range(1..4)}));
+	for n in 0..2 { chain.push(json!({"op":"rebroadcast","node":n})); }
+	if rng.gen_bool(0.3) { chain.push(json!({"op":"reload","node":1 - payer[pick]})); }
+	chain.push(json!({"op":"mine","who":"none","n":rng.gen_range(1..4)}));
+	for n in 0..2 { chain.push(json!({"op":"rebroadcast","node":n})); }
+	chain.push(json!({"op":"settle"}));
+	json!({"cfg":{"chan_type":types[rng.gen_range(0..3)],"value":1_000_000,"push":([100_000_000u64, 400_000_000, 500_000_000][rng.gen_range(0..3)]),
+		"feerate":([253u32, 1000, 2500][rng.gen_range(0..3)]),"style":[rng.gen_range(0..11), rng.gen_range(0..11)]},
+		"history":history,"close":close,"chain":chain,"family":"late_preimage_reorg"})
+}
+
 fn random_script(rng: &mut StdRng, profile: &str) -> Value {
+	if profile == "c07r" { return late_preimage_reorg_script(rng); }
+	if profile != "c06" && rng.gen_range(0..100) < 30 { return fee_trajectory_script(rng); }
 	let types = ["static", "anchors", "zerofee"];
 	let chan_type = types[rng.gen_range(0..3)];
 	let feerate = [253u32, 1000, 2500][rng.gen_range(0..3)];
@@ -1366,6 +1539,16 @@ fn random_script(rng: &mut StdRng, profile: &str) -> Value {
 				chain.push(json!({"op":"mine","who":[rng.gen_range(0..2), HARNESS]}));
 			} else if r < 60 && npay > 0 {
 				chain.push(json!({"op":"preimage","pay":rng.gen_range(0..npay)}));
+				if rng.gen_bool(0.15) {
+					// the tip is replaced right after a claim was made, the claim stays unmined, the
+					// application asks for the pending claims again
+					if rng.gen_bool(0.3) { chain.push(json!({"op":"mine","who":"none","n":rng.gen_range(1..3)})); }
+					chain.push(json!({"op":"reorg","depth":rng.gen_range(1..4),"add":rng.gen_range(1..4)}));
+					for n in 0..2 { chain.push(json!({"op":"rebroadcast","node":n})); }
+				}
+			} else if r < 64 {
+				chain.push(json!({"op":"reorg","depth":rng.gen_range(1..4),"add":rng.gen_range(1..3)}));
+				for n in 0..2 { chain.push(json!({"op":"rebroadcast","node":n})); }
 			} else if r < 70 {
 				chain.push(json!({"op":"reload","node":rng.gen_range(0..2)}));
 			} else if r < 80 {
